@@ -1370,6 +1370,16 @@ def eval_region(fn, entry, env, max_steps=2000, stop_at=None, menv=None, assume_
                     try:
                         if k == 'use':
                             menv[key_] = rd(rv['a'])
+                        elif k == 'bin' and not rv['op'].endswith('WithOverflow'):
+                            # read-modify-write directly on memory (release MIR: `state += 1` without overflow check)
+                            try:
+                                wty = place_type(fn, lhs)
+                            except Exception:
+                                wty = None
+                            r_ = _binop(rv['op'], rd(rv['a']), rd(rv['b']), INT_W.get(wty, 64))
+                            menv[key_] = r_ if not isinstance(r_, tuple) else r_[0]
+                        elif k == 'cast' and rv['kind'] == 'IntToInt':
+                            menv[key_] = rd(rv['a']) & ((1 << INT_W.get(rv['ty'], 64)) - 1)
                         else:
                             menv.pop(key_, None)
                             if key_ in (menv_watch or ()):
